@@ -17,10 +17,16 @@ import CelmaVerif.Lemmas.ConcurrencyHB
       *derived* from what the thread calls on its handler (`Api`, `threadProg`); its process-wide
       cells are the regenerated inventory, which call reaches them is read from the regenerated
       call-site table with its guards (`C09_singleton_callers_modelled`: the guard in front of
-      `Groups::instance()` is `mUsedByGroup` where the model says so); the footprint condition is PROVED for
+      `Groups::instance()` is `mUsedByGroup` where the model says so); what else of process-wide state
+      a call can name is the regenerated per-call table `entryFootprints` (call closure by simple
+      function name of the C++ entry point of each of the nine calls), put into the call's steps
+      (`Api.generated`) and checked against the model's reading by `C09_call_footprints_modelled`;
+      the footprint condition is PROVED for
       plain handler threads (decidable condition `Plain` on the call list) and proved to FAIL for
       a thread that asks for the usage / the group list / standard arguments
-      (`C09_plain_is_the_boundary`, `C09_usage_threads_conflict`).
+      (`C09_plain_is_the_boundary`, `C09_usage_threads_conflict`).  `Plain` is a SUFFICIENT
+      condition; the four unconditional callers are proved outside; a group handler without
+      add-calls is `Local` but not `Plain` (`C09_plain_is_sufficient_not_necessary`).
       `C09_handler_threads_isolated_partial` is the older form for arbitrary programs; its two
       hypotheses together are equivalent to the footprint condition
       (`C09_hypotheses_are_the_footprint_condition`), so it derives nothing about the handler.
@@ -28,7 +34,12 @@ import CelmaVerif.Lemmas.ConcurrencyHB
   objects of its own thread (every object is either of static storage duration or reachable from
   the thread's own handler / stack only) is an assumption about C++, supported (never replaced)
   by the ThreadSanitizer runs of the check; the step granularity of `threadProg` is one access
-  set per call, not the C++ statements.
+  set per call, not the C++ statements.  Per call, the cells of the thread's OWN objects and
+  `Api.prints` are hand-written; the static-storage part is generated (inventory, call-site table
+  with guards, per-call closure table) — by NAME: objects reached through pointers / references
+  handed in by the application (a stream or a check object shared by two handlers), calls through
+  function pointers the application stores, state hidden inside libstdc++ / Boost, and `mutable` /
+  `const_cast` on const statics are not seen.
 -/
 namespace CelmaVerif.Props.C09
 
@@ -168,6 +179,77 @@ theorem C09_singleton_callers_modelled : callersModelled = true := by
     | decide
     | fail "the call-site table of Singleton<T> members has a caller the thread model does not know, or one with other guards (see singleton_callers in the translator report)"
 
+/-- **The per-call footprints on process-wide state, regenerated, are the modelled ones.**
+`entryFootprints` (translate/shared_state.py, clang-query matchers 8–10 over the same translation
+units as the inventory) lists for each of the nine `Api` calls what the CALL CLOSURE of the C++
+function it enters can name: the closure follows, from every function of the repository with the
+entry's simple name (`Handler` constructors, `internAddArgument`, `addBracketHandler`,
+`addArgument`, `evalArguments`, `usage`, `listArgGroups`, `addStandardArgument`,
+`evalArgumentString`), every function *named* in a reached function (callee, constructor, address
+taken; lambdas and default arguments belong to the function they are written in) to every function
+of the repository with that simple name (virtual calls: all overriders; templates: all targets),
+and stops at the other eight entry points (a nested entry is a call of its own in a thread's call
+list, e.g. `-h` during `evalArguments` is `Api.usage`), at the members of `Singleton<T>` (their
+callers and guards are `singletonCallers`) and at functions outside the repository (counted).
+This theorem, by `decide`, says for every call:
+every mutable static-storage object of the repository and every external object (`std::cout` …)
+*named* anywhere in that closure — guards not evaluated — is a cell `Api.steps` gives that call on
+a handler with `mUsedByGroup = false` and streams of its own (for the five plain calls: none);
+the standard streams are only *bound* to a reference, and only in the constructors (the flag
+`stdStreams`; handler.cpp:87 — the objects are written by whoever writes `mOutput`/`mErrorOutput`,
+which is the hand-written `Api.prints`); every caller of a singleton member inside the closure
+reaches it only under guards under which the model says the call touches the singleton; and no
+function outside the repository named in the closure is on the list of functions with hidden
+static state (`strtok`, `localtime`, `setlocale`, `rand` …; accepted with reason: `getenv`).
+A `static int counter` used in `Handler::internAddArgument`, a function-local static buffer in a
+check / format / the tokenizer reached from `evalArguments`, or `Groups::instance()` added to a
+constructor or to `evalArguments` makes this fail; the `have`s name the call in the error message.
+It is a generated cross-check of the static-storage part of the per-call access sets and a real
+hypothesis of `C09_plain_handler_threads_isolated` (the steps contain `Api.generated`); it is not
+a derivation of the cells of the thread's own objects, and it sees names only. -/
+theorem C09_call_footprints_modelled : callFootprintsModelled = true := by
+  have : footprintModelled (.construct false false) = true := by
+    first
+      | decide
+      | fail "footprint of `construct` (Handler::Handler): its call closure names a process-wide mutable object, reaches a singleton member, or uses a standard stream other than by binding it (see entry_footprints / sites in the translator report)"
+  have : footprintModelled (.addListArg 0) = true := by
+    first
+      | decide
+      | fail "footprint of `addListArg` (Handler::internAddArgument): its call closure names a process-wide mutable object the model does not give this call, or reaches a singleton member under another guard than `mUsedByGroup` (see entry_footprints / sites in the translator report)"
+  have : footprintModelled .addBracketHandler = true := by
+    first
+      | decide
+      | fail "footprint of `addBracketHandler` (Handler::addBracketHandler): its call closure names a process-wide mutable object the model does not give this call (see entry_footprints / sites in the translator report)"
+  have : footprintModelled .addSubGroupArg = true := by
+    first
+      | decide
+      | fail "footprint of `addSubGroupArg` (Handler::addArgument): its call closure names a process-wide mutable object the model does not give this call (see entry_footprints / sites in the translator report)"
+  have : footprintModelled (.evalUse 0 0) = true := by
+    first
+      | decide
+      | fail "footprint of `evalUse` (Handler::evalArguments and everything it reaches: assign, checks, formats, constraints, tokenizer): its call closure names a process-wide mutable object, reaches a singleton member, or calls a function with hidden static state (see entry_footprints / sites in the translator report)"
+  have : footprintModelled .usage = true := by
+    first
+      | decide
+      | fail "footprint of `usage` (Handler::usage): its call closure names a process-wide mutable object that is not a singleton cell / uses a standard stream directly (see entry_footprints / sites in the translator report)"
+  have : footprintModelled .listArgGroups = true ∧ footprintModelled .addStandardArgument = true ∧
+      footprintModelled .evalArgumentString = true := by
+    first
+      | decide
+      | fail "footprint of `listArgGroups` / `addStandardArgument` / `evalArgumentString`: the call closure names a process-wide mutable object that is not a singleton cell (see entry_footprints / sites in the translator report)"
+  first
+    | decide
+    | fail "the generated per-call footprints (entryFootprints) are not covered by the model's reading"
+
+/-- the obligation is not vacuous on the tree under check: the table has a row for each of the nine
+calls, the closures are not trivial (more than 300 function names, more than 90 reached from
+`evalArguments`), the constructors bind both standard streams, and seven rows of the call-site
+table lie in the closures -/
+example : entryFootprints.length = 9 ∧ callGraphFunctions > 300 ∧
+    ((Api.evalUse 0 0).footprint.map (fun fp => decide (fp.functions > 90))) = some true ∧
+    ((Api.construct false true).footprint.map (·.boundExternals.length)) = some 2 ∧
+    (entryFootprints.flatMap (·.singletonCallers)).length = 7 := by decide
+
 /-- **Isolation of plain handler threads, footprint condition proved, not assumed.**  Every
 thread is given by the list of calls it makes on its own handler (`Api`: construct with/without
 `hfInGroup`, bound to the standard streams or not; add a list argument; add a sub-group argument;
@@ -183,7 +265,13 @@ all contains a conflicting pair of accesses.  The proof uses `C09_singleton_call
 the calls a plain thread makes (`internAddArgument`, `addBracketHandler`, `addArgument` for a
 sub-group) reach
 `Groups::instance()` only under `mUsedByGroup`, which is false for it; with another guard in the
-tree this theorem has no proof. -/
+tree this theorem has no proof.  It also uses `C09_call_footprints_modelled`: the steps of a call
+contain every process-wide mutable object the call closure of its C++ entry point names in the
+tree under check (`Api.generated`, regenerated); for a plain call the obligation forces that list
+to be empty (`plain_generated_nil`), with a static in `internAddArgument` or in a check reached
+from `evalArguments` this theorem has no proof either.  Hand-written and therefore assumed: the
+cells of the thread's own objects per call, and that a handler bound to the standard streams
+writes them only in `usage` / `listArgGroups` (no `hfVerboseArgs`). -/
 theorem C09_plain_handler_threads_isolated (threads : List (List Api))
     (hplain : ∀ th ∈ threads, Plain th = true)
     (σ0 : Store HCell HVal) (sched : List (Fin threads.length)) :
@@ -195,7 +283,8 @@ theorem C09_plain_handler_threads_isolated (threads : List (List Api))
       ¬ a.Conflict b) := by
   intro progs
   have hl : ∀ i, (progs i).Local (handlerOwner threads.length) i :=
-    fun i => threadProg_local C09_singleton_callers_modelled i (threads[i]) (hplain _ (List.getElem_mem _))
+    fun i => threadProg_local C09_singleton_callers_modelled C09_call_footprints_modelled i (threads[i])
+      (hplain _ (List.getElem_mem _))
   refine ⟨fun hdone i => ?_, C09_race_free _ (handlerOwner _) progs σ0 sched hl⟩
   have h := C09_noninterference _ (handlerOwner _) progs σ0 sched hl hdone i
   exact ⟨h.1, fun k => h.2 _ (Or.inl (handlerOwner_dest i k))⟩
@@ -210,16 +299,29 @@ theorem C09_plain_calls_guarded_by_mUsedByGroup :
     Api.addSubGroupArg.touchesSingleton true = true :=
   ⟨plain_not_touches C09_singleton_callers_modelled, by decide, by decide, by decide⟩
 
-/-- `Plain` is the exact boundary inside the family of derived thread programs, not a
-restatement of the footprint condition: a thread with one call that enters the group singleton
-whatever the handler's flag `mUsedByGroup` (`usage`, `listArgGroups`, `addStandardArgument`,
-`evalArgumentString`: a call site outside every `if`) has every singleton member of the inventory
-in its write footprint and does NOT satisfy the footprint condition; plain threads do. -/
+/-- `Plain` is a SUFFICIENT condition for the footprint condition inside the family of derived
+thread programs, and not a restatement of it: plain threads satisfy it (first half), and a thread
+with one call that enters the group singleton whatever the handler's flag `mUsedByGroup` (`usage`,
+`listArgGroups`, `addStandardArgument`, `evalArgumentString`: a call site outside every `if`) has
+every singleton member of the inventory in its write footprint and does NOT satisfy it (second
+half).  The two halves do not meet: a handler constructed with `hfInGroup` on which no add-call is
+made is neither plain nor one of the four — it is `Local`
+(`C09_plain_is_sufficient_not_necessary`).  (The name is kept; "boundary" = the four unconditional
+callers are proved outside.) -/
 theorem C09_plain_is_the_boundary {n : Nat} (i : Fin n) (calls : List Api) :
     (Plain calls = true → (threadProg i.val calls).Local (handlerOwner n) i) ∧
     (∀ a ∈ calls, (∀ g, a.touchesSingleton g = true) → ¬ (threadProg i.val calls).Local (handlerOwner n) i) :=
-  ⟨threadProg_local C09_singleton_callers_modelled i calls,
+  ⟨threadProg_local C09_singleton_callers_modelled C09_call_footprints_modelled i calls,
    fun a ha hu => threadProg_not_local i calls a ha hu (by decide)⟩
+
+/-- `Plain` is not necessary (audit 2, part D, finding 6): the call list "construct a handler with
+`hfInGroup` bound to the standard streams, evaluate one use" is not `Plain`, yet its derived thread
+program satisfies the footprint condition — no add-call, so the cross check under `mUsedByGroup`
+is never reached. -/
+theorem C09_plain_is_sufficient_not_necessary :
+    Plain [.construct true true, .evalUse 0 0] = false ∧
+    (threadProg 0 [.construct true true, .evalUse 0 0]).Local (handlerOwner 1) (0 : Fin 1) :=
+  group_handler_without_add_local C09_call_footprints_modelled
 
 /-- … and the conclusion fails with it: two threads that each construct a plain handler and ask
 for the usage both write the members of `Singleton<Groups>` (first use constructs the object);
